@@ -272,7 +272,7 @@ theorem cliqueSet_symm (adj : Nat → Nat → Bool) (hsym : ∀ a b, adj a b = a
     exact h a ha b hb (by omega)
 
 /-- ★ `cliques_kernel_refines`: the array kernel `count_cliques_from_dag` (in-place reordering of the adjacency
-    segments, per-level candidate lists, truncated degrees, labels; `indices` passed by value) started on the box
+    segments — shared by all the recursive calls —, per-level candidate lists, truncated degrees, labels) started on the box
     of `ListingBox.__cinit__` and the DAG of `get_dag` returns the recursive count of the orientation
     `edge i j ∧ 0 ≤ order i < order j` over all nodes, for every clique size `k ≥ 2`. -/
 theorem cliques_kernel_refines (n : Nat) (edge : Nat → Nat → Bool) (order : List Int) (hlen : order.length = n)
@@ -285,13 +285,17 @@ theorem cliques_kernel_refines (n : Nat) (edge : Nat → Nat → Bool) (order : 
 example : ([2, 0, 1] : List Int).length = 3 ∧ 2 ≤ 3 := by decide
 
 /-- `cliques_kernel_partial` of the plan, now a corollary: when `count_cliques_from_dag` returns, every label of
-    the box is back to its value (`k` at the top level) and the candidate list, degrees and counters of the calling
-    level are untouched — the permutation / label-restoration invariants of the kernel -/
+    the box is back to its value (`k` at the top level), the candidate list, degrees and counters of the calling
+    level are untouched, and `indices` — shared with the caller since /repo 63da5b43 — has only been permuted inside
+    the level windows of the callee's candidates: each of these windows is a permutation of what it was, every
+    other cell is unchanged. These are the permutation / label-restoration invariants of the kernel. -/
 theorem cliques_box_restored (indptr : List Nat) (p : Nat → Nat → Bool) (kn n m L : Nat)
     (K : KernelCtx indptr n L m) (c : Nat) (hc : c + 2 ≤ kn) (ix : List Nat) (b : Box)
     (inv : LevelInv indptr p kn n m L (c+2) ix b) :
-    Frame (c+2) b (cliquesFrom indptr (c+2) ix b).2 ∧ (cliquesFrom indptr (c+2) ix b).2.Shape kn n m :=
-  ⟨(cliquesFrom_spec indptr p kn n m L K c hc ix b inv).2.2, (cliquesFrom_spec indptr p kn n m L K c hc ix b inv).2.1⟩
+    Frame (c+2) b (cliquesFrom indptr (c+2) ix b).2.2 ∧ (cliquesFrom indptr (c+2) ix b).2.2.Shape kn n m ∧
+      IxPost indptr L (c+2) (subList b (c+2)) b ix (cliquesFrom indptr (c+2) ix b).2.1 :=
+  ⟨(cliquesFrom_spec indptr p kn n m L K c hc ix b inv).2.2.1, (cliquesFrom_spec indptr p kn n m L K c hc ix b inv).2.1,
+    (cliquesFrom_spec indptr p kn n m L K c hc ix b inv).2.2.2⟩
 
 /-- the hypotheses of `cliques_box_restored` hold at the top level of every run of `count_cliques`: the box of
     `ListingBox.__cinit__` on the DAG of `get_dag` (any graph, any order array of the right length, any `k`) -/
